@@ -354,9 +354,16 @@ func init() {
 		MinNontrivial: 1000,
 		Run: func(c *core.Ctx) {
 			runRefProfile(c, &refProfile{
-				cfg:    func(r *rand.Rand) lang.GenCfg { return lang.CfgBlocks() },
+				cfg: func(r *rand.Rand) lang.GenCfg {
+					cfg := lang.CfgBlocks()
+					if r.Intn(3) == 0 {
+						cfg.WBind = 2 // the result list must not be disturbed by bind statements
+					}
+					return cfg
+				},
 				layout: calmLayout,
 				quickN: 250000, thorN: 5000000,
+				fixed:   c03Fixed,
 				nontriv: func(cs *Case) bool { return cs.Oc != nil && cs.Oc.BlocksOpened >= 1 },
 				extra: func(c *core.Ctx, i int64, cs *Case, r ImplResult, g *lang.Gen) {
 					if cs.Oc == nil {
@@ -461,6 +468,58 @@ func c04Fixed(c *core.Ctx, run func(i int64, p *lang.Program, tag string)) int64
 					}
 				}
 			}
+		}
+	}
+	// selectors and targets that are not in the language: compile errors at that token
+	for _, sel := range []string{"01", "001", "0x1", "0X01", "1.0", "1e0", "2", "0", "11", "\"1\"", "one", "firstx", "First", "ALL", "lasts", "true", "nil"} {
+		for _, tgt := range tgts {
+			if c.Mine(i) {
+				p := &lang.Program{Stmts: []*lang.Stmt{blk("srv", "n1", 1), {Kind: lang.SBind, Name: "srv", Sel: sel, Target: tgt}}}
+				run(i, p, "unknown_selector")
+			}
+			i++
+		}
+	}
+	for _, tgt := range []string{"structs", "Struct", "SLICE", "slices", "map", "x"} {
+		for _, sel := range sels {
+			if c.Mine(i) {
+				p := &lang.Program{Stmts: []*lang.Stmt{blk("srv", "n1", 1), {Kind: lang.SBind, Name: "srv", Sel: sel, Target: tgt}}}
+				run(i, p, "unknown_target")
+			}
+			i++
+		}
+	}
+	if c.Mine(i) {
+		run(i, &lang.Program{Stmts: []*lang.Stmt{blk("srv", "n1", 1), {Kind: lang.SBind, Name: "srv", Sel: "all", Target: "struct"}}}, "all_to_struct")
+	}
+	i++
+	return i
+}
+
+// c03Fixed: chains of blocks nested 1..16 deep (the supported depth), named and unnamed
+func c03Fixed(c *core.Ctx, run func(i int64, p *lang.Program, tag string)) int64 {
+	var i int64
+	for depth := 1; depth <= 16; depth++ {
+		for variant := 0; variant < 3; variant++ {
+			if c.Mine(i) {
+				var mk func(d int) *lang.Stmt
+				mk = func(d int) *lang.Stmt {
+					s := &lang.Stmt{Kind: lang.SDef, Name: []string{"blk", "sub", "srv"}[d%3]}
+					if variant > 0 {
+						s.BlockName = lang.StrLit(fmt.Sprintf("n%d", d))
+					}
+					s.Body = append(s.Body, &lang.Stmt{Kind: lang.SExpr, E: lang.Assign("level", lang.Lit(lang.IntLit(d)))})
+					if d < depth {
+						s.Body = append(s.Body, mk(d+1))
+					}
+					if variant == 2 {
+						s.Body = append(s.Body, &lang.Stmt{Kind: lang.SExpr, E: lang.Assign("after", lang.Id("level"))})
+					}
+					return s
+				}
+				run(i, &lang.Program{Stmts: []*lang.Stmt{mk(1), {Kind: lang.SPrint, E: lang.Lit(lang.IntLit(depth))}}}, "nesting_chain")
+			}
+			i++
 		}
 	}
 	return i
